@@ -548,6 +548,12 @@ func tagPrograms() []*Program {
 			Outputs: []Output{
 				{"success", O("r", OrDisabled{"$.steps.a.outputs.success"})},
 				{"other", O("r", E(sv("b")), "m", Opt{true, "$.steps.a.disabled.output.message"})}}},
+		// a running step is stopped by a producer and must be force-closed; consumers use wait-optional on its outputs
+		{Name: "stopforce", Steps: []Step{
+			pstep("p", O("v", E("$.input.n"))),
+			{ID: "a", Input: O("v", I(1)), StopIf: E("$.steps.p.outputs.success"), ClosureMS: I(0)},
+			{ID: "b", Input: O("v", I(2)), StopIf: E("$.steps.p.outputs.success"), ClosureMS: I(50)}},
+			Outputs: []Output{{"done", O("t", E(sv("p")), "w", Opt{true, sv("a")}, "x", Opt{true, sv("b")})}}},
 		{Name: "optinwaitfor", Steps: []Step{
 			pstep("a", O("v", E("$.input.n"))),
 			{ID: "c", Input: O("v", I(2)), WaitFor: O("x", Opt{true, "$.steps.a.outputs.success"})}},
